@@ -18,13 +18,20 @@ from tensordict import TensorDict
 from .base import Adapter, with_ids
 
 
-def _inst(J, M, P, nops, cols, wait, jssp):
-    """cols: one tuple of M processing times per real operation (flat numbering)"""
+def _inst(J, M, P, nops, cols, wait, jssp, padcol=None):
+    """cols: one tuple of M processing times per real operation (flat numbering);
+    padcol: what the padded columns hold (FJSPGenerator: zeros; JSSPGenerator leaves random
+    processing times on one machine there)"""
     n = sum(nops)
     assert len(cols) == n and n <= P and len(nops) == J and all(len(c) == M for c in cols)
     assert all(any(d > 0 for d in c) for c in cols)
-    pt = [[cols[o][m] if o < n else 0 for o in range(P)] for m in range(M)]
-    return {"N": n, "J": J, "M": M, "P": P, "nops": list(nops), "pt": pt,
+    padcol = padcol or (0,) * M
+    pt = [[cols[o][m] if o < n else padcol[m] for o in range(P)] for m in range(M)]
+    return _inst_pt(J, M, P, nops, pt, wait, jssp)
+
+
+def _inst_pt(J, M, P, nops, pt, wait, jssp):
+    return {"N": sum(nops), "J": J, "M": M, "P": P, "nops": list(nops), "pt": pt,
             "wait": bool(wait), "jssp": bool(jssp), "grid": 1}
 
 
@@ -91,7 +98,9 @@ class _Guard:
             signal.setitimer(signal.ITIMER_REAL, 0)
             signal.signal(signal.SIGALRM, old)
 
-    HANG_BUDGET = 240.0     # seconds spent in hanging rows before the run is aborted
+    HANG_BUDGET = 90.0      # seconds lost in calls that did not return before the run is aborted
+    lost = 0.0              # (class-wide) seconds lost so far
+    hung = 0                # (class-wide) rows whose step does not return
 
     def _dead(self, td, e):
         self.crashed.append(type(e).__name__ + ":" + str(e)[:80])
@@ -101,16 +110,18 @@ class _Guard:
 
     def _rec(self, td):
         n = td.shape[0]
+        secs = (1.0 if n == 1 else 10 + n / 100) if _Guard.hung == 0 else (0.5 if n == 1 else 2 + n / 100)
         try:
-            return self._timed(td.clone(), 1.0 if n == 1 else 10 + n / 100)
+            return self._timed(td, secs)       # _step clones its input first
         except _StepTimeout as e:
+            _Guard.lost += secs
             if n == 1:
-                object.__setattr__(self, "hung", getattr(self, "hung", 0) + 1)
-                if self.hung * 1.0 > self.HANG_BUDGET:
-                    raise RuntimeError("env.step does not return (hang) for %d rows so far, e.g. "
-                                       "proc_times=%s action=%s time=%s" % (
-                                           self.hung, td["proc_times"][0].tolist(),
-                                           td["action"].tolist(), td["time"].tolist()))
+                _Guard.hung += 1
+                if _Guard.lost > self.HANG_BUDGET:
+                    raise RuntimeError("C02: env.step does not return (hang) for %d rows so far, e.g. "
+                                       "proc_times=%s action=%s time=%s busy_until=%s" % (
+                                           _Guard.hung, td["proc_times"][0].tolist(), td["action"].tolist(),
+                                           td["time"].tolist(), td["busy_until"][0].tolist()))
                 return self._dead(td, e)
             return torch.cat([self._rec(td[r:r + 1]) for r in range(n)], 0)      # hang: row by row
         except Exception as e:  # noqa: BLE001  (AssertionError, IndexError ...): bisect
@@ -150,6 +161,8 @@ class FJSP(Adapter):
                     [((2, 1), (0, 1), (1, 2))[o % 3] for o in range(n)],
                     [((1, 2), (2, 1))[o % 2] for o in range(n)],
                     [(1, 1)] * n, [(2, 2)] * n]
+        elif M != 3:
+            base = [[(1,) * M] * n, [(2,) * M] * n, [((2,) * M, (1,) * M)[o % 2] for o in range(n)]]
         else:
             base = [[_unit(M, 0, 1)] * n,
                     [_unit(M, o, 1) for o in range(n)],
@@ -186,6 +199,9 @@ class FJSP(Adapter):
         for nops in [(1, 1), (2, 1), (1, 2)]:
             for wait in (False, True):
                 cells.append((2, 3, 4, nops, wait, None, 4))
+        for wait in (False, True):          # degenerate shapes: a single job, a single machine
+            cells += [(1, 2, 3, (3,), wait, None, 2), (1, 2, 3, (1,), wait, None, 0),
+                      (2, 1, 4, (2, 1), wait, None, 0), (2, 1, 4, (2, 2), wait, None, 0)]
         cells += [(2, 3, 4, (2, 2), False, None, 4), (2, 3, 4, (2, 2), True, 3, 2),
                   (3, 2, 6, (2, 2, 1), False, None, 4), (3, 2, 6, (2, 2, 1), True, 6, 0),
                   (2, 2, 6, (3, 3), False, None, 4), (2, 2, 6, (3, 3), True, 6, 0),
@@ -199,9 +215,51 @@ class FJSP(Adapter):
             n = sum(nops)
             hand = self._hand(n, M)
             hand = hand if nh is None else hand[:nh] if nh >= 0 else hand[nh:]
-            for cols in _columns(rnd, n, self._pool(M, tier), len(hand) + nr, fixed=hand):
-                insts.append(_inst(J, M, P, nops, cols, wait, self.jssp))
+            for k, cols in enumerate(_columns(rnd, n, self._pool(M, tier), len(hand) + nr, fixed=hand)):
+                insts.append(_inst(J, M, P, nops, cols, wait, self.jssp, padcol=self._padcol(M, k)))
+        insts += self._drawn(tier, seed)
         return with_ids(insts)
+
+    def _padcol(self, M, k):
+        return None          # FJSPGenerator zeroes the padded columns
+
+    def _gen_specs(self, tier):
+        """(generator kwargs, batch, max #operations of an instance kept in wait mode)"""
+        base = {"min_processing_time": 1, "max_processing_time": 3}
+        if tier == "quick":
+            return [(dict(base, num_jobs=2, num_machines=2, min_ops_per_job=1, max_ops_per_job=2), 3, 4)]
+        return [(dict(base, num_jobs=2, num_machines=2, min_ops_per_job=1, max_ops_per_job=2), 12, 4),
+                (dict(base, num_jobs=3, num_machines=2, min_ops_per_job=1, max_ops_per_job=2), 8, 4),
+                (dict(base, num_jobs=2, num_machines=3, min_ops_per_job=1, max_ops_per_job=2), 6, 3)]
+
+    def _generator(self, **kw):
+        from rl4co.envs.scheduling.fjsp.generator import FJSPGenerator
+
+        return FJSPGenerator(**kw)
+
+    def _drawn(self, tier, seed):
+        """instances drawn from the bundled generator itself (format, dtypes and padding exactly
+        as the generator delivers them), converted to integers"""
+        out = []
+        with torch.random.fork_rng():
+            torch.manual_seed(4242 + seed)
+            for kw, bs, nmax in self._gen_specs(tier):
+                td = self._generator(**kw)(batch_size=[bs])
+                rows = []
+                for r in range(bs):
+                    so, eo = td["start_op_per_job"][r].tolist(), td["end_op_per_job"][r].tolist()
+                    nops = [e - s + 1 for s, e in zip(so, eo)]
+                    pt = [[int(x) for x in row] for row in td["proc_times"][r].tolist()]
+                    rows.append(_inst_pt(len(nops), len(pt), len(pt[0]), nops, pt, False, self.jssp))
+                # the adapter's tensors must be the generator's tensors, bit for bit
+                mine = self.to_td(rows)
+                for k in ("start_op_per_job", "end_op_per_job", "proc_times", "pad_mask"):
+                    assert mine[k].dtype == td[k].dtype and torch.equal(mine[k], td[k]), k
+                for i in rows:
+                    out.append(i)
+                    if i["N"] <= nmax:
+                        out.append(dict(i, wait=True))
+        return out
 
     def group_key(self, inst):
         return (inst["J"], inst["M"], inst["P"], inst["wait"])
@@ -314,17 +372,38 @@ class JSSP(FJSP):
             return cells
         for nops in [(1, 1), (2, 1), (1, 2), (2, 2)]:
             for wait in (False, True):
-                cells.append((2, 2, 4, nops, wait, None, 40))
+                cells.append((2, 2, 4, nops, wait, None, 24))
         for nops in [(1, 1, 1), (2, 1, 1), (1, 1, 2), (1, 2, 1), (2, 2, 1), (2, 2, 2)]:
             for wait in (False, True):
-                cells.append((3, 2, 6, nops, wait, None, 12 if sum(nops) < 6 else 6))
+                cells.append((3, 2, 6, nops, wait, None, 8 if sum(nops) < 6 else 4))
         for nops in [(3, 3), (3, 1), (1, 2), (2, 3)]:
             for wait in (False, True):
-                cells.append((2, 3, 6, nops, wait, None, 12))
+                cells.append((2, 3, 6, nops, wait, None, 8))
+        for wait in (False, True):          # degenerate shapes: a single job, a single machine
+            cells += [(1, 2, 3, (3,), wait, None, 2), (1, 2, 3, (1,), wait, None, 0),
+                      (2, 1, 4, (2, 1), wait, None, 0), (2, 1, 4, (2, 2), wait, None, 0)]
         for nops in [(2, 2, 2), (1, 2, 2), (1, 1, 1), (3, 1, 2)]:
             for wait in (False, True):
-                cells.append((3, 3, 6, nops, wait, None, 8 if sum(nops) < 6 else 4))
+                cells.append((3, 3, 6, nops, wait, None, 5 if sum(nops) < 6 else 2))
         return cells
+
+    def _padcol(self, M, k):
+        # JSSPGenerator does not clear the padded columns: every other instance gets one
+        return _unit(M, k, 1 + k % 3) if k % 2 else None
+
+    def _gen_specs(self, tier):
+        base = {"min_processing_time": 1, "max_processing_time": 3}
+        loose = dict(base, one2one_ma_map=False, min_ops_per_job=1)
+        if tier == "quick":
+            return [(dict(loose, num_jobs=2, num_machines=3, max_ops_per_job=3), 3, 6)]
+        return [(dict(base, num_jobs=2, num_machines=2), 8, 4),
+                (dict(loose, num_jobs=2, num_machines=3, max_ops_per_job=3), 10, 6),
+                (dict(loose, num_jobs=3, num_machines=2, max_ops_per_job=2), 8, 6)]
+
+    def _generator(self, **kw):
+        from rl4co.envs.scheduling.jssp.generator import JSSPGenerator
+
+        return JSSPGenerator(**kw)
 
     def make_env(self, inst):
         from rl4co.envs.scheduling.jssp.env import JSSPEnv
